@@ -67,6 +67,10 @@ Definition stake (n : nat) (s : stream) : list color :=
   | Rep c => repeat c n
   end.
 
+(* src/iterator/contiguous.rs:27-31 IntoPixels::new (ContiguousIteratorExt::into_pixels, src/iterator/mod.rs:26):
+     bounding_box.points().zip(iter), mapped to Pixel(p, c) *)
+Definition into_pixels (bounding_box : rect) (cs : stream) : list (point * color) := szip (points bounding_box) cs.
+
 (* ---- pixel maps ---------------------------------------------------------------------- *)
 Definition pixmap := point -> option color.
 Definition empty_map : pixmap := fun _ => None.
